@@ -31,7 +31,10 @@ func NewProvider(fs afero.Fs, conf config.Config) (core.Provider, error) {
 	if err != nil {
 		return nil, xerrors.Errorf("cant create ReadSeekCloser: %w", err)
 	}
-	decoder, err := decoders.NewDecoder(conf, readSeeker)
+	// The provider counts delivered ammo against Limit itself, after the ChosenCases filter.
+	decoderConf := conf
+	decoderConf.Limit = 0
+	decoder, err := decoders.NewDecoder(decoderConf, readSeeker)
 	if err != nil {
 		return nil, xerrors.Errorf("decoder init error: %w", err)
 	}
